@@ -81,6 +81,12 @@ def msg_header(rng):
 
 
 def ip(rng):
+    # what real nodes send are IPv4-mapped addresses (::ffff:a.b.c.d); also the unspecified and the loopback address
+    r = rng.random()
+    if r < 0.3:
+        return IPv6Address(b"\x00" * 10 + b"\xff\xff" + rb(rng, 4))
+    if r < 0.36:
+        return IPv6Address(rng.choice([bytes(16), bytes(15) + b"\x01", b"\x00" * 10 + b"\xff\xff\x7f\x00\x00\x01"]))
     return IPv6Address(rb(rng, 16))
 
 
